@@ -98,6 +98,23 @@ def gen_C10(ctx):
     out += [c for c in st_scalars(["name", "pypi", "pypi2"], step=1 if ctx.tier == "thorough" else 977, shapes=("P",))]
     out += st_huge(ctx)
     out += st_pypi_runs(ctx)
+    out += st_limit_lengths()
+    return out
+
+
+def st_limit_lengths():
+    """names whose length sits on the limits the ecosystems document (nuget 100, npm 214, 63 / 64, 127 / 128, 255 / 256),
+    ending in a letter whose lower-case form is LONGER (U+0130), or all upper-case: through the builder and the parser,
+    for every type (a length rule applied before / after the case rule is not idempotent)"""
+    out = []
+    for L in (63, 64, 65, 99, 100, 101, 127, 128, 129, 213, 214, 215, 254, 255, 256, 257):
+        for nm in ("a" * (L - 1) + "\u0130", "A" * L, "a" * (L - 2) + "\u0130\u0130", "a-" * (L // 2)):
+            for ident, ty in zip(IDENTS, KNOWN_TYPES):
+                script = "-" if ident != "Maven" else "ns:" + hx("g")
+                out.append(case("build P %s %s %s" % (ident, hx(nm), script), "limit-lengths", shape="P"))
+            out.append(case("build S %s %s -" % (hx("nuget"), hx(nm)), "limit-lengths", shape="S"))
+            s_ = "pkg:nuget/" + urllib.parse.quote(nm, safe="") + "@1.0"
+            out.append(case("parse P " + hx(s_), "limit-lengths", s=s_, shape="P"))
     return out
 
 
@@ -343,6 +360,21 @@ def gen_C15(ctx):
             for pre, post in (("pkg:", ""), ("pkg:/", ""), ("pkg://", ""), ("PKG:", ""), ("", "/"), ("pkg:", "/"), ("", "@1"), ("", ":"), ("type:", ""), ("purl:", ""),
                               ("", "/name"), ("pkg:", "/name@1.0"), ("", "?"), ("", "#"), ("/", ""), ("", "\n"), ("\ufeff", ""), ("", "\0"), ("\"", "\""), ("", ".")):
                 out.append(case("ptype " + hx(pre + nm + post), "ptype-affix"))
+    # one non-ASCII scalar standing where k letters of a name would be (k = its length in UTF-8): the byte length of the
+    # name is preserved — what a byte-wise key, hash or packing of the name may confuse with it.  Every two-byte scalar
+    # in every position (thorough: also every three-byte scalar); and every corner scalar alone and in every position
+    for name in KNOWN_TYPES:
+        for i in range(len(name) - 1):
+            for cp in range(0x80, 0x800):
+                out.append(case("ptype " + hx(name[:i] + chr(cp) + name[i + 2:]), "ptype-bytesubst"))
+        if ctx.tier == "thorough":
+            for i in range(len(name) - 2):
+                for cp in range(0x800, 0x10000):
+                    if not 0xD800 <= cp <= 0xDFFF:
+                        out.append(case("ptype " + hx(name[:i] + chr(cp) + name[i + 3:]), "ptype-bytesubst"))
+    for cp in utf8_boundary_scalars() + (list(range(0x80, 0x110000, 1 if ctx.tier == "thorough" else 97))):
+        if not 0xD800 <= cp <= 0xDFFF:
+            out.append(case("ptype " + hx(chr(cp)), "ptype-scalar"))
     # the type string used IN a PURL: every case variant of every name, parsed typed; and the serde form of the type
     for c in st_ptype_exhaustive():
         s_ = "pkg:%s/ns/name@1.0" % c["s"]
